@@ -134,25 +134,57 @@ def run(ctx: Any, prog: Program) -> None:
     loops = [l for l in walk_no_nested(gf) if isinstance(l, ast.For)]
     ok = len(loops) == 1 and ast.unparse(loops[0].iter) == 'self.systems' and any(isinstance(n, ast.Return) for n in ast.walk(loops[0])) \
         and any(isinstance(h.body[0], ast.Continue) for t in ast.walk(loops[0]) if isinstance(t, ast.Try) for h in t.handlers)
-    ctx.check('C19.H4', ok, fs, gf, 'FileSystemChain._get_file must try self.systems in list order and return on the first member that has the file', func='FileSystemChain._get_file', text='first hit in list order')
+    ctx.shape('C19.H4', ok, fs, gf, 'FileSystemChain._get_file must try self.systems in list order and return on the first member that has the file', func='FileSystemChain._get_file', text='first hit in list order')
     ok = 'os.path.join(prefix, name)' in ast.unparse(gf)
-    ctx.check('C19.H4', ok, fs, gf, 'the member prefix must be joined in front of the looked-up name', func='FileSystemChain._get_file', text='prefix joined on lookup')
+    ctx.shape('C19.H4', ok, fs, gf, 'the member prefix must be joined in front of the looked-up name', func='FileSystemChain._get_file', text='prefix joined on lookup')
     ads = ch['add_sys']
     src = ast.unparse(ads)
-    ok = 'if priority:\n        self.systems.insert(0, (sys, prefix))\n    else:\n        self.systems.append((sys, prefix))' in src
-    ctx.check('C19.H4', ok, fs, ads, 'add_sys(priority=True) must insert at position 0 and otherwise append', func='FileSystemChain.add_sys', text='priority insertion')
+    prio_param = any(a.arg == 'priority' for a in ads.args.args + ads.args.kwonlyargs)
+    inserts = [c for c in ast.walk(ads) if isinstance(c, ast.Call) and dotted(c.func) == 'self.systems.insert' and len(c.args) == 2]
+    appends = [c for c in ast.walk(ads) if isinstance(c, ast.Call) and dotted(c.func) == 'self.systems.append']
+    prio_used = any(isinstance(n, ast.Name) and n.id == 'priority' and isinstance(n.ctx, ast.Load) for n in ast.walk(ads))
+    if not prio_param:
+        ctx.shape('C19.H4', False, fs, ads, 'add_sys has no priority parameter', func='FileSystemChain.add_sys', text='priority insertion')
+    elif not prio_used:
+        ctx.check('C19.H4', False, fs, ads, 'add_sys ignores its priority parameter: a priority member must be consulted before the existing ones', func='FileSystemChain.add_sys', text='priority insertion')
+    elif len(inserts) == 1 and appends:
+        idx = inserts[0].args[0]
+        ctx.check('C19.H4', isinstance(idx, ast.Constant) and idx.value == 0, fs, inserts[0], f'a priority member is inserted at position `{ast.unparse(idx)}`; lookups take the first member that has the file, so it must go to position 0',
+                  func='FileSystemChain.add_sys', text='priority insertion')
+    else:
+        ctx.shape('C19.H4', False, fs, ads, 'insert/append pair not recognised', func='FileSystemChain.add_sys', text='priority insertion')
     wr = ch['walk_folder_repeat']
     src = ast.unparse(wr)
-    ctx.check('C19.H4', 'os.path.join(prefix, folder)' in src and 'os.path.relpath(file.path, prefix)' in src, fs, wr, 'walk must address a prefixed member inside its prefix and report names relative to it',
+    ctx.shape('C19.H4', 'os.path.join(prefix, folder)' in src and 'os.path.relpath(file.path, prefix)' in src, fs, wr, 'walk must address a prefixed member inside its prefix and report names relative to it',
               func='FileSystemChain.walk_folder_repeat', text='prefix joined and stripped on walk')
-    ctx.check('C19.H4', 'for sys, prefix in self.systems' in src, fs, wr, 'walk must visit members in priority order', func='FileSystemChain.walk_folder_repeat', text='walk in list order')
+    ctx.shape('C19.H4', 'for sys, prefix in self.systems' in src, fs, wr, 'walk must visit members in priority order', func='FileSystemChain.walk_folder_repeat', text='walk in list order')
     wf = ch['walk_folder']
     src = ast.unparse(wf)
-    ok = 'folded = file.path.casefold()' in src and 'if folded in done:\n            continue' in src and 'done.add(folded)' in src
-    ctx.check('C19.H4', ok, fs, wf, 'the de-duplicated walk must skip names already seen, compared casefolded', func='FileSystemChain.walk_folder', text='de-duplication on folded path')
+    adds = [c for c in ast.walk(wf) if isinstance(c, ast.Call) and isinstance(c.func, ast.Attribute) and c.func.attr == 'add' and c.args and isinstance(c.args[0], ast.Name)]
+    yields = [y for y in ast.walk(wf) if isinstance(y, ast.Yield) and y.value is not None]
+    if len(adds) != 1 or len(yields) != 1:
+        ctx.shape('C19.H4', False, fs, wf, 'de-duplication set / yield not found', func='FileSystemChain.walk_folder', text='de-duplication on folded path')
+    else:
+        key_name = adds[0].args[0].id
+        kdef = [n.value for n in ast.walk(wf) if isinstance(n, ast.Assign) and dotted(n.targets[0]) == key_name]
+        folded = bool(kdef) and isinstance(kdef[0], ast.Call) and isinstance(kdef[0].func, ast.Attribute) and kdef[0].func.attr in ('casefold', 'lower')
+        key_base = ast.unparse(kdef[0].func.value) if folded else (ast.unparse(kdef[0]) if kdef else '?')
+        # the name that is handed out
+        yv = yields[0].value
+        if isinstance(yv, ast.Name):
+            out_path = f'{yv.id}.path'
+        elif isinstance(yv, ast.Call) and dotted(yv.func) == 'File' and len(yv.args) >= 2:
+            out_path = ast.unparse(yv.args[1])
+        else:
+            out_path = '?'
+        if not kdef or out_path == '?':
+            ctx.shape('C19.H4', False, fs, wf, 'de-duplication key / yielded path not recognised', func='FileSystemChain.walk_folder', text='de-duplication on folded path')
+        else:
+            ctx.check('C19.H4', folded and key_base == out_path, fs, adds[0], f'the de-duplicated walk remembers `{ast.unparse(kdef[0])}` but hands out the name `{out_path}`: the key must be the case-folded form of exactly the name '
+                      'that is listed (a member-local spelling or an unfolded name lets the same chain name through twice)', func='FileSystemChain.walk_folder', text='de-duplication on folded path')
     it = fs.func('FileSystem.__iter__')
     ok = any(isinstance(r, ast.Return) and ast.unparse(r.value) == "self.walk_folder('')" for r in walk_no_nested(it))
-    ctx.check('C19.H4', ok, fs, it, "iteration must be walk_folder('')", func='FileSystem.__iter__', text="__iter__ = walk_folder('')")
+    ctx.shape('C19.H4', ok, fs, it, "iteration must be walk_folder('')", func='FileSystem.__iter__', text="__iter__ = walk_folder('')")
 
 
 MUTANTS = [
